@@ -32,7 +32,7 @@ ASSUMPTIONS = [
 ]
 PROFILE = {
     "quick": dict(examples=1600, shards=16, budget_s=85),
-    "thorough": dict(examples=2500, shards=16, budget_s=1100),
+    "thorough": dict(examples=20000, shards=16, budget_s=1100),
 }
 
 
